@@ -17,8 +17,9 @@ EXPLANATION = (
     "unwrap/expect/slice-index/advance/panic sites in the decoders, the wire types' accessors and the session functions, "
     'each discharged by a dominating length guard, by a declared type invariant whose own rule holds (every construction of'
     ' RecordIdentifier happens in a validating constructor; a derived Deserialize building it from unchecked bytes violates'
-    ' it), by the option-field typestate rule, or by a table line naming one site with a reason; anything else is '
-    'UNAUDITED; (R4) FilterKind Display/FromStr tag agreement and DocTicket::decode_bytes rejecting an empty node list. NOT'
+    ' it; the validating constructor evaluated on lengths around 64 accepts exactly those >= 64), by the option-field typestate rule, or by a table line naming one site with a reason; anything else is '
+    'UNAUDITED; (R4) FilterKind Display/FromStr tag agreement, the Display -> FromStr round trip evaluated on concrete sample filters '
+    '(payloads containing the separator, non-UTF-8 payloads) and DocTicket::decode_bytes rejecting an empty node list. NOT'
     ' decided: byte-exact round trip for all values and chunkings (postcard / tokio_util trusted), pinned encodings (the '
     'snapshot tests cover them).'
 )
